@@ -22,7 +22,7 @@
                         for a flat C-order list, so every theorem below covers all arrays
      interp1 s c v x  : peraxis_point [s] [c] (vget [length c] v) [x]      (one dimension) *)
 From Coq Require Import ZArith QArith Reals List Bool.
-From Verif Require Import Base.Num Base.Vec C15.Model C15.Proofs.
+From Verif Require Import Base.Num Base.Vec C15.Syntax Gen.InterpWeights C15.Model C15.Proofs.
 Import ListNotations.
 Local Open Scope R_scope.
 
